@@ -270,6 +270,15 @@ pub fn run(opts: &Opts) -> i32 {
   let requests = lean.sent;
   lean.finish();
 
+  // concrete property violations first, at most MAX_REPLAYS/2 divergences
+  findings.sort_by_key(|f| match f.kind { "property" => 0, "divergence" => 1, _ => 2 });
+  let n_prop = findings.iter().filter(|f| f.kind == "property").count();
+  if n_prop > MAX_REPLAYS / 2 {
+    let mut keep = Vec::new();
+    let mut seen_prop = 0;
+    for f in findings.drain(..) { if f.kind == "property" { seen_prop += 1; if seen_prop > MAX_REPLAYS / 2 { continue; } } keep.push(f); }
+    findings = keep;
+  }
   for (i, f) in findings.iter().enumerate() {
     if i >= MAX_REPLAYS { break; }
     let path = format!("{}/finding_{}_{}.json", out_dir, seed, i);
